@@ -1,0 +1,84 @@
+//go:build verif
+
+package ratelimiting
+
+// Contracts for govc (contract-based deductive verification; see /verif/DESIGN.md).
+// This file holds only comments and is compiled only with -tags verif.
+//
+// C09, the lock-structured part (DESIGN.md §6 C09): monitor invariant on c.lock with ghost counters
+// adds (number of Add calls) and signals (number of signal hand-offs spawned). Proved for all interleavings of
+// lock-respecting goroutines: signals never exceed Adds; a signal is spawned only when something is pending;
+// Add always records a pending event; the first event of a window fires at once; the pending cap fires at once.
+// Timelines (when a signal arrives), Close/WaitGroup joins and goroutine hand-offs are outside this family.
+
+//@ type coalescing
+//@   ghost adds int
+//@   ghost signals int
+//@   lock lock protects pendingEvents timer hasTimer currentDur backoffFactor adds signals
+//@   lockinv lock [C09.inv.pending] self.pendingEvents >= 0
+//@   lockinv lock [C09.inv.signals] self.signals >= 0 && self.signals + self.pendingEvents <= self.adds
+//@   lockinv lock [C09.inv.timer] (self.hasTimer.v != 0) <==> (self.timer != nil)
+//@   lockinv lock [C09.inv.backoff] self.currentDur <= self.maxDelay
+//@   invariant self.clock != nil && self.initialDelay > 0 && self.initialDelay <= self.maxDelay
+//@   invariant self.maxPendingEvents != nil ==> *self.maxPendingEvents > 0
+
+//@ func (*coalescing).fireEvent
+//@   tags C09
+//@   opt locks=caller
+//@   opt go=ignore
+//@   requires c != nil && heldw(c.lock) && c.pendingEvents >= 0
+//@   modifies c.pendingEvents, c.signals
+//@   ensures heldw(c.lock)
+//@   ensures [C09.fire.pending] old(c.pendingEvents) > 0 ==> (c.pendingEvents == 0 && c.signals == old(c.signals) + 1)
+//@   ensures [C09.fire.nothing] old(c.pendingEvents) == 0 ==> (c.pendingEvents == 0 && c.signals == old(c.signals))
+//@   at before go#0 ghost c.signals = c.signals + 1
+
+//@ func (*coalescing).reset
+//@   tags C09
+//@   opt locks=caller
+//@   requires c != nil && heldw(c.lock) && c.timer != nil
+//@   modifies c.pendingEvents, c.currentDur, c.backoffFactor, c.hasTimer.v, c.timer
+//@   ensures heldw(c.lock)
+//@   ensures [C09.reset] c.pendingEvents == 0 && c.currentDur == c.initialDelay && c.backoffFactor == 1 && c.hasTimer.v == 0 && c.timer == nil
+
+//@ func (*coalescing).Add
+//@   tags C09
+//@   opt go=ignore
+//@   requires c != nil
+//@   ensures [C09.add.counted] at(U, c.adds) == at(L, c.adds) + 1 && at(U, c.pendingEvents) == at(L, c.pendingEvents) + 1
+//@   ensures [C09.add.nosignal] at(U, c.signals) == at(L, c.signals)
+//@   at store pendingEvents#0 ghost c.adds = c.adds + 1
+//@   at call Lock#0 assume c.pendingEvents < 4611686018427387904
+//@   at call Lock#0 label L
+//@   at before call Unlock#0 label U
+
+//@ func (*coalescing).handleTimerFired
+//@   tags C09
+//@   requires c != nil && inv(c)
+//@   ensures [C09.timer.flush] at(U, c.pendingEvents) == 0 && at(U, c.signals) == at(L, c.signals) + (at(L, c.pendingEvents) > 0 ? 1 : 0)
+//@   ensures [C09.timer.closed] at(U, c.hasTimer.v) == 0 && at(U, c.adds) == at(L, c.adds)
+//@   at call Lock#0 label L
+//@   at call Lock#0 assume c.timer != nil
+//@   at before call Unlock#0 label U
+
+//@ func (*coalescing).handleInputCh
+//@   tags C09
+//@   requires c != nil && inv(c)
+//@   ensures [C09.input.first] at(L, c.hasTimer.v) == 0 ==> (at(U, c.pendingEvents) == 0 && at(U, c.hasTimer.v) != 0
+//@        && at(U, c.signals) == at(L, c.signals) + (at(L, c.pendingEvents) > 0 ? 1 : 0))
+//@   ensures [C09.input.cap] (at(L, c.hasTimer.v) != 0 && c.maxPendingEvents != nil && at(L, c.pendingEvents) >= *c.maxPendingEvents) ==>
+//@        (at(U, c.pendingEvents) == 0 && at(U, c.signals) == at(L, c.signals) + (at(L, c.pendingEvents) > 0 ? 1 : 0))
+//@   ensures [C09.input.window] (at(L, c.hasTimer.v) != 0 && !(c.maxPendingEvents != nil && at(L, c.pendingEvents) >= *c.maxPendingEvents)) ==>
+//@        (at(U, c.pendingEvents) == at(L, c.pendingEvents) && at(U, c.signals) == at(L, c.signals) && at(U, c.currentDur) <= c.maxDelay)
+//@   ensures [C09.input.adds] at(U, c.adds) == at(L, c.adds)
+//@   at call Lock#0 label L
+//@   at before call Unlock#0 label U
+
+//@ func NewCoalescing
+//@   tags C09 C07
+//@   modifies nothing
+//@   ensures [C09.new.initial] (opts.InitialDelay != nil && *opts.InitialDelay <= 0) ==> (result == nil && result1 != nil)
+//@   ensures [C09.new.max] (opts.MaxDelay != nil && *opts.MaxDelay <= 0) ==> (result == nil && result1 != nil)
+//@   ensures [C09.new.order] (opts.InitialDelay != nil && opts.MaxDelay != nil && *opts.MaxDelay < *opts.InitialDelay) ==> (result == nil && result1 != nil)
+//@   ensures [C09.new.pending] (opts.MaxPendingEvents != nil && *opts.MaxPendingEvents <= 0) ==> (result == nil && result1 != nil)
+//@   ensures [C09.new.ok] result1 == nil ==> (result != nil && fresh(result))
